@@ -60,8 +60,8 @@ def explicit_raises(prog, rep):
                 mi = prog.module("aw_query.query2")
                 qt = mi.consts.get("qtypes")
                 listed = [prog.cls(norm(x)) for x in qt.elts] if isinstance(qt, (ast.List, ast.Tuple)) else []
-                ok = bool(listed) and all(fi.name in c.methods for c in listed)
-                rep.check(ok, "RAISE-CLASS", fi.short, "raise NotImplementedError", "unreachable: every class in qtypes overrides it", f"{[c.name for c in listed if fi.name not in c.methods]} does not override {fi.name}: NotImplementedError escapes from parsing", fi.loc(r))
+                ok = bool(listed) and all(prog.method(c, fi.name) is not None and prog.method(c, fi.name).cls.name != "QToken" for c in listed)
+                rep.check(ok, "RAISE-CLASS", fi.short, "raise NotImplementedError", "unreachable: every class in qtypes overrides it", f"{[c.name for c in listed if prog.method(c, fi.name) is None or prog.method(c, fi.name).cls.name == 'QToken']} does not override {fi.name}: NotImplementedError escapes from parsing", fi.loc(r))
             else:
                 rep.violation("RAISE-CLASS", fi.short, f"raise {name}", f"`raise {name}` in the query front-end: {name} is not in the query-error family {sorted(good)}, so malformed input surfaces as a foreign exception type", fi.loc(r), expected=sorted(good), found=name)
     rep.floor("explicit raise statements in scope", n, 14)
@@ -122,7 +122,7 @@ def implicit_raises(prog, rep):
     bad = [norm(r.value) for r in walk_own(pt.node) if isinstance(r, ast.Return) and not (isinstance(r.value, ast.Tuple) and len(r.value.elts) == 2 and isinstance(r.value.elts[0], ast.Tuple) and len(r.value.elts[0].elts) == 2)]
     rep.check(not bad, "IMPLICIT-RAISE", pt.short, "result shape", "((class, token), remainder) on every return", f"_parse_token returns {bad}: the callers' tuple unpacking raises ValueError/TypeError", pt.loc())
     for c in classes:
-        fi = c.methods.get("check")
+        fi = prog.method(c, "check")
         if fi is None:
             continue
         bad = [norm(r.value) for r in walk_own(fi.node) if isinstance(r, ast.Return) and not (isinstance(r.value, ast.Tuple) and len(r.value.elts) == 2)]
@@ -244,7 +244,7 @@ def guarded_lookups(prog, rep):
                     q = prog.func("query", "aw_query.query2")
                     sets = [n for n in q.node.body if isinstance(n, ast.Assign) and norm(n.targets[0]) == f"namespace[{k}]"]
                     loops = [n for n in q.node.body if isinstance(n, ast.For)]
-                    ok = len(sets) == 1 and loops and sets[0].lineno < loops[0].lineno
+                    ok = len(sets) == 1 and loops and q.node.body.index(sets[0]) < q.node.body.index(loops[0])
                     rep.check(bool(ok), "KEY-GUARD", fi.short, f"{d}[{k}]", "set unconditionally by query() before the statements run", f"namespace[{k}] is read but query() does not set it before the first statement", fi.loc(s))
                     continue
 
